@@ -7,6 +7,7 @@
 package main
 
 import (
+	"context"
 	"fmt"
 	"os"
 	"os/exec"
@@ -131,10 +132,20 @@ func racePass(run *ev.Run) {
 	if run.Thorough() {
 		args = append(args, "thorough")
 	}
-	cmd := exec.Command(bin, args...)
+	// the pass runs real goroutines: code that deadlocks (the explorer above reports that as a violation) makes it
+	// hang, so it runs under a generous watchdog; not finishing is recorded, never a verdict of its own
+	budget := time.Duration(run.Pick(15, 300))*4*time.Second + 5*time.Minute
+	ctx, cancel := context.WithTimeout(context.Background(), budget)
+	defer cancel()
+	cmd := exec.CommandContext(ctx, bin, args...)
 	cmd.Env = append(os.Environ(), "GORACE=halt_on_error=0")
 	out, err := cmd.CombinedOutput()
 	text := string(out)
+	if ctx.Err() != nil {
+		run.Set("race_pass", fmt.Sprintf("did not finish within %v and was stopped (a call that never returns in a free-running execution; the controlled exploration is the deciding part)", budget))
+		run.Capped("free-running race pass stopped by its watchdog")
+		return
+	}
 	if !strings.Contains(text, "RACEPASS-RUNS") {
 		ev.Fatal("race pass did not complete: %v\n%s", err, tail(text, 40))
 	}
